@@ -57,7 +57,8 @@ func agentTraceCase(t *rapid.T, mode string) {
 		var reqs []req
 		for i, n := 0, rapid.IntRange(3, 14).Draw(t, "n"); i < n; i++ {
 			reqs = append(reqs, req{kind: rapid.SampledFrom([]string{"sasl", "sasl", "basic-auth", "api-authenticate", "ldap-bind", "ldap-search", "ldap-add", "ldap-modify", "ldap-delete", "ldap-compare",
-				"api-add-nosession", "api-remove-garbage-session", "api-update-wrong-oldpw", "api-list-user-token", "api-setadmin-nosession", "api-bad-json"}).Draw(t, "kind"),
+				"api-add-nosession", "api-remove-garbage-session", "api-update-wrong-oldpw", "api-list-user-token", "api-setadmin-nosession", "api-bad-json",
+				"api-setadmin-noop-adminsession", "api-setadmin-noop-adminsession", "api-setadmin-ghost-adminsession", "api-update-empty-newpw-adminsession"}).Draw(t, "kind"),
 				user: rapid.SampledFrom([]string{"alice", "root", "ghost", "../store/alice"}).Draw(t, "user"), pw: rapid.SampledFrom([]string{"alicepw", "rootpw", "wrong"}).Draw(t, "pw")})
 			if mode == "C03" {
 				reqs[len(reqs)-1].user = rapid.SampledFrom([]string{"../sibling/bob", "./alice", "alice/", "x/../alice", "../store/alice", s.root + "/sibling/bob", "", "..", ".tmp/x", "alice\x00", "-alice", "../decoy"}).Draw(t, "badname")
@@ -69,6 +70,11 @@ func agentTraceCase(t *rapid.T, mode string) {
 			os.Mkdir(sib, 0o700)
 			writePre(sib, cfg, preUser{Name: "bob", PW: "bobpw", PID: 1})
 			writePre(s.root, cfg, preUser{Name: "decoy", PW: "decoypw", PID: 1})
+		}
+		// (every draw happens before the agent is started: a draw may abort the case, and nothing may be left running then)
+		degraded := ""
+		if mode == "C15" {
+			degraded = rapid.SampledFrom([]string{"", "", "backup-file", "both-extensions", "foreign-dir"}).Draw(t, "degraded")
 		}
 		pidCh := make(chan int, 1)
 		type out struct {
@@ -83,6 +89,13 @@ func agentTraceCase(t *rapid.T, mode string) {
 		}()
 		pid := <-pidCh
 		kill := func() { syscall.Kill(pid, syscall.SIGKILL) }
+		finished := false
+		defer func() {
+			if !finished { // the case is being unwound (fatal or panic) before the regular end: do not leave the tracee behind
+				kill()
+				<-done
+			}
+		}()
 		// wait for the three listeners
 		var httpAddr, ldapAddr string
 		deadline := time.Now().Add(30 * time.Second)
@@ -107,11 +120,43 @@ func agentTraceCase(t *rapid.T, mode string) {
 		if httpAddr == "" || ldapAddr == "" {
 			kill()
 			<-done
+			finished = true
 			data, _ := os.ReadFile(logf)
 			t.Fatalf("VERIF-INFRA agent under tracer did not start: %s", data)
 		}
+		// the directory may degrade while the agent runs (it is only checked at start and on reload): a stray backup file,
+		// a second file for an existing user, a foreign entry. Requests that change nothing must still change nothing.
+		if mode == "C15" {
+			switch degraded {
+			case "backup-file":
+				os.WriteFile(filepath.Join(s.base, "alice.user~"), []byte("x\n"), 0o600)
+			case "both-extensions":
+				writePre(s.base, cfg, preUser{Name: "root", PW: "other", Admin: false, PID: 1})
+			case "foreign-dir":
+				os.Mkdir(filepath.Join(s.base, "lost+found"), 0o700)
+			}
+			if degraded != "" {
+				vlib.Class("store-degraded-while-agent-runs")
+				reqs = append(reqs, req{kind: "api-setadmin-noop-adminsession", user: "alice", pw: "alicepw"}, req{kind: "api-setadmin-noop-adminsession", user: "root", pw: "rootpw"})
+			}
+		}
 		before := vlib.TakeSnap(s.root)
 		client := &http.Client{Timeout: 20 * time.Second}
+		adminTok := ""
+		adminSession := func() string {
+			if adminTok == "" {
+				resp, err := client.Post("http://"+httpAddr+"/api/authenticate", "application/json", strings.NewReader(`{"username":"root","password":"rootpw"}`))
+				if err == nil {
+					var ar struct {
+						Session string `json:"session"`
+					}
+					json.NewDecoder(resp.Body).Decode(&ar)
+					resp.Body.Close()
+					adminTok = ar.Session
+				}
+			}
+			return adminTok
+		}
 		post := func(path, body string) int {
 			resp, err := client.Post("http://"+httpAddr+path, "application/json", strings.NewReader(body))
 			if err != nil {
@@ -215,6 +260,18 @@ func agentTraceCase(t *rapid.T, mode string) {
 				post("/api/set-admin", `{"username":"alice","admin":true}`)
 			case "api-bad-json":
 				post("/api/update", `{"username":`)
+			case "api-setadmin-noop-adminsession":
+				// an authorised request that asks for the state the user is already in: answered 200 or refused, a no-op either way
+				target, flag := "alice", "false"
+				if r.pw == "rootpw" {
+					target, flag = "root", "true"
+				}
+				post("/api/set-admin", `{"session":"`+adminSession()+`","username":"`+target+`","admin":`+flag+`}`)
+				vlib.Class("traced-noop-request-with-admin-session")
+			case "api-setadmin-ghost-adminsession":
+				post("/api/set-admin", `{"session":"`+adminSession()+`","username":"ghost","admin":true}`)
+			case "api-update-empty-newpw-adminsession":
+				post("/api/update", `{"session":"`+adminSession()+`","username":"alice","newpassword":""}`)
 			}
 			vlib.Class("traced-frontend-request:" + r.kind)
 		}
@@ -222,6 +279,7 @@ func agentTraceCase(t *rapid.T, mode string) {
 		after := vlib.TakeSnap(s.root)
 		kill()
 		o := <-done
+		finished = true
 		if o.err != nil || o.res == nil || len(o.res.Ops) != 1 {
 			t.Fatalf("VERIF-INFRA tracer: %v", o.err)
 		}
